@@ -266,7 +266,7 @@ class Conv:
             if a["act"] == "DropConnection" and tset(acts[j - 1]["st"]["rq"]):
                 r = max(k for k in range(j) if acts[k]["act"] == "Reconcile")
                 p = [k for k in range(r) if acts[k]["act"] in ("Crash", "DropConnection")]
-                if not p or p[-1] in arm_kill_at:
+                if not p or p[-1] in arm_kill_at or any(acts[k]["act"] == "ReconcileUpdate" for k in range(r, j)):
                     raise Undrivable("cannot hold this RECONCILE call")
                 arm_rec_at[p[-1]] = j
                 lostans.add(j)
@@ -332,11 +332,13 @@ class Conv:
                 else:
                     if i in arm_kill_at:
                         self.arm("KILL", arm_kill_at[i][0])
+                    if i in arm_rec_at:
+                        if i in lostans:
+                            raise Undrivable("two RECONCILE answers lost in a row")
+                        self.arm("RECONCILE")      # before the stream goes: the core is back within milliseconds
                     self.emit(do="dropstream")
                     if i in lostans:
                         self.release("RECONCILE")   # answered into the void
-                    if i in arm_rec_at:
-                        self.arm("RECONCILE")
             elif act == "CoreStart":
                 self.emit(do="startcore")
                 self.down = False
